@@ -1,4 +1,4 @@
-import NeumannModel.RelTx.Restore
+import NeumannModel.RelTx.LockOwner
 /-
   C09 — relational transactions are all-or-nothing and writers exclude each other.
   ONLY property theorems and their non-vacuity examples.  Statements are at statement
@@ -9,7 +9,8 @@ namespace Neumann.RelTx.Props
 open Neumann.RelTx
 
 /-! The scripts used by the witnesses and the non-vacuity examples (`s0`, `setupIdx`, `setupPlain`,
-    `sThree`, `calmOps`) are defined at the end of `Restore.lean`
+    `sThree`, `calmOps`) are defined at the end of `Restore.lean`, those of the lock-takeover
+    theorems (`s1`, `takeover`, `afterEnd`) at the end of `LockOwner.lean`
     (`insert` is `begin; tx_insert; commit`, so it consumes a transaction id). -/
 
 
@@ -280,6 +281,172 @@ example : let s := run s0 (setupIdx ++ [.begin, .begin, .txUpdate 1 0 (.idEq 0) 
     holder (step s (.rollback 1)).1 0 0 = none ∧ holder (step s (.tick 30001)).1 0 0 = none ∧
     holder (step s (.tick 30000)).1 0 0 = some 1 ∧
     (step (step s (.tick 30001)).1 (.txUpdate 2 0 (.idEq 0) [(0, 5)])).2 = .okN 1 := by decide
+
+/-! ## the end of a transaction removes only its OWN locks -/
+
+/-- `release` looks at the owner.  In EVERY state — reachable or not, so in particular in every state
+    reached by any statement sequence with lock expiries and takeovers, where the key of a taken-over
+    lock is still listed under its OLD holder (`try_lock` does not clean `tx_locks`) — the end of
+    transaction A by `commit`, by `rollback`, or by `cleanup_expired` (which ends every timed-out
+    transaction) leaves every row lock whose current holder is somebody else exactly as it is: same
+    holder, same acquisition time, hence the same `row_lock_holder` answer; and the other
+    transaction's key list is untouched. -/
+theorem release_keeps_foreign_locks (s : State) (A t i : Nat) (l : Lock)
+    (hl : s.locks t i = some l) (hne : l.tx ≠ A) :
+    ((commit s A).1.locks t i = some l ∧ holder (commit s A).1 t i = holder s t i ∧
+      (commit s A).1.txLocks l.tx = s.txLocks l.tx) ∧
+    ((rollback s A).1.locks t i = some l ∧ holder (rollback s A).1 t i = holder s t i ∧
+      (rollback s A).1.txLocks l.tx = s.txLocks l.tx) ∧
+    (txExpired s l.tx = false →
+      (cleanupTxs s).1.locks t i = some l ∧ holder (cleanupTxs s).1 t i = holder s t i ∧
+      (cleanupTxs s).1.txLocks l.tx = s.txLocks l.tx) := by
+  refine ⟨?_, ?_, ?_⟩
+  · have h := commit_locks_foreign hl hne
+    exact ⟨h, holder_eq_of_lock hl h (commit_clock s A).1 (commit_clock s A).2.1, commit_txLocks_other s hne⟩
+  · have h := rollback_locks_foreign hl hne
+    exact ⟨h, holder_eq_of_lock hl h (rollback_clock s A).1 (rollback_clock s A).2.1, rollback_txLocks_other s hne⟩
+  · intro hx
+    have h := cleanupTxs_locks_foreign hl hx
+    exact ⟨h, holder_eq_of_lock hl h (cleanupTxs_clock s).1 (cleanupTxs_clock s).2.1, cleanupTxs_txLocks_other s hx⟩
+
+/-- non-vacuity: after the takeover B = 2 holds row 0, the key is STILL in the list of the old holder
+    A = 1 (and in B's), A is open; A's commit and rollback leave B's lock; 10 s later A has timed
+    out, B has not, and `cleanup_expired` leaves B's lock -/
+example : let s := run s1 takeover
+    s.locks 0 0 = some ⟨2, 30001⟩ ∧ (0, 0) ∈ s.txLocks 1 ∧ (0, 0) ∈ s.txLocks 2 ∧ gate s 1 = none ∧ gate s 2 = none ∧
+    holder s 0 0 = some 2 ∧ holder (commit s 1).1 0 0 = some 2 ∧ holder (rollback s 1).1 0 0 = some 2 ∧
+    txExpired (tick s 10000) 1 = true ∧ txExpired (tick s 10000) 2 = false ∧
+    (cleanupTxs (tick s 10000)).2 = .okN 1 ∧ holder (cleanupTxs (tick s 10000)).1 0 0 = some 2 := by decide
+
+/-- Run level, every statement: B holds an unexpired lock on a row (B an id that has been handed out).
+    Then after ANY script that does not end B (no `commit B` / `rollback B`, no `cleanup_expired` while B
+    is timed out) and during which B's lock does not time out (computable predicate `spares`) —
+    statements, commits, rollbacks and timeout cleanup of any other transactions, non-transactional
+    statements (whose internal transaction ends inside them), DDL, lock sweeps, ticks — B still holds
+    the row, and every update / delete by anybody else whose condition matches the row fails and
+    changes nothing.  No reachability hypothesis. -/
+theorem held_lock_survives_others (s : State) (B t i : Nat) (hh : holder s t i = some B) (hB : B < s.nextTx)
+    (ops : List Op) (hsp : spares s B t i ops = true) :
+    holder (run s ops) t i = some B ∧
+    (∀ C cond T, C ≠ B → (run s ops).tables t = some T → i ∈ matching T cond →
+      (∀ upd, ∃ e, txUpdate (run s ops) C t cond upd = (run s ops, .err e)) ∧
+      (∃ e, txDelete (run s ops) C t cond = (run s ops, .err e))) := by
+  have h := holder_run_of_spares hh hB ops hsp
+  refine ⟨h, ?_⟩
+  intro C cond T hC hT hi
+  have k := row_lock_exclusive (run s ops) B C t i T cond (fun e => hC e.symm) h hT hi
+  exact ⟨k.1, k.2.1⟩
+
+/-- THE TAKEOVER CASE.  Row `(t,i)` carries a lock of A that is listed under A; another transaction B
+    writes the row successfully (update or delete whose condition matches it).  Then
+      * A's lock had timed out (the only way B can get past it),
+      * B now holds the row — and the key is STILL in A's key list,
+      * A's end — commit, rollback, or `cleanup_expired` while B has not timed out — leaves B the holder,
+      * more generally after ANY script that spares B (see `held_lock_survives_others`; e.g.
+        `[commit A, begin, tx_update C …]`) B holds the row and every third transaction's update /
+        delete matching the row fails with the state unchanged.
+    Any state, any statement sequence afterwards. -/
+theorem taken_over_lock_survives_old_holder_end (s : State) (A B t i n : Nat) (T : Table) (cond : Cond) (lA : Lock)
+    (hT : s.tables t = some T) (hi : i ∈ matching T cond)
+    (hlA : s.locks t i = some lA) (hA : lA.tx = A) (hlist : (t, i) ∈ s.txLocks A) (hAB : A ≠ B) (hB : B < s.nextTx)
+    (sB : State)
+    (hw : (∃ upd, sB = (txUpdate s B t cond upd).1 ∧ (txUpdate s B t cond upd).2 = .okN n) ∨
+          (sB = (txDelete s B t cond).1 ∧ (txDelete s B t cond).2 = .okN n)) :
+    lA.expired s.now s.lockTimeout = true ∧
+    holder sB t i = some B ∧ (t, i) ∈ sB.txLocks A ∧
+    holder (commit sB A).1 t i = some B ∧ holder (rollback sB A).1 t i = some B ∧
+    (txExpired sB B = false → holder (cleanupTxs sB).1 t i = some B) ∧
+    (∀ ops, spares sB B t i ops = true →
+      holder (run sB ops) t i = some B ∧
+      (∀ C cond' T', C ≠ B → (run sB ops).tables t = some T' → i ∈ matching T' cond' →
+        (∀ upd, ∃ e, txUpdate (run sB ops) C t cond' upd = (run sB ops, .err e)) ∧
+        (∃ e, txDelete (run sB ops) C t cond' = (run sB ops, .err e)))) := by
+  have hexp : lockBlocked s B t (matching T cond) = false → lA.expired s.now s.lockTimeout = true := by
+    intro hb
+    unfold lockBlocked at hb
+    rw [List.any_eq_false] at hb
+    have := hb i hi
+    simp only [hlA, hA] at this
+    have hne : (A != B) = true := by simpa using hAB
+    simpa [hne] using this
+  have hlistA : ∀ rows : List Nat, (t, i) ∈ (if rows.isEmpty then s else lockAll s B t rows).txLocks A := by
+    intro rows
+    split
+    · exact hlist
+    · simp only [lockAll, hAB, ↓reduceIte]; exact hlist
+  -- the three facts about `sB` that the rest needs
+  have key : lA.expired s.now s.lockTimeout = true ∧ holder sB t i = some B ∧ (t, i) ∈ sB.txLocks A ∧ B < sB.nextTx := by
+    rcases hw with ⟨upd, rfl, hok⟩ | ⟨rfl, hok⟩
+    · obtain ⟨hb, hform⟩ := txUpdate_ok_form hT hok
+      refine ⟨hexp hb, (updated_deleted_row_locked s B t n T cond hT).1 upd hok i hi, ?_,
+        Nat.lt_of_lt_of_le hB (clk_txUpdate s B t cond upd).next⟩
+      rw [hform, (foldl_updateRow_locks B t upd _ _).2.1]
+      exact hlistA _
+    · obtain ⟨hb, hform⟩ := txDelete_ok_form hT hok
+      refine ⟨hexp hb, (updated_deleted_row_locked s B t n T cond hT).2 hok i hi, ?_,
+        Nat.lt_of_lt_of_le hB (clk_txDelete s B t cond).next⟩
+      rw [hform, (foldl_deleteRow_locks B t _ _).2.1]
+      exact hlistA _
+  obtain ⟨h1, h2, h3, h4⟩ := key
+  obtain ⟨l, hl, hlB, _⟩ := holder_some h2
+  have hne : l.tx ≠ A := by rw [hlB]; exact fun e => hAB e.symm
+  have r := release_keeps_foreign_locks sB A t i l hl hne
+  refine ⟨h1, h2, h3, by rw [r.1.2.1]; exact h2, by rw [r.2.1.2.1]; exact h2, ?_, ?_⟩
+  · intro hx
+    rw [(r.2.2 (by rw [hlB]; exact hx)).2.1]; exact h2
+  · intro ops hsp
+    exact held_lock_survives_others sB B t i h2 h4 ops hsp
+
+/-- non-vacuity of `taken_over_lock_survives_old_holder_end` / `held_lock_survives_others`: the state
+    before B's write has A's expired lock on row 0, listed under A; B's update answers `Ok(1)`; the
+    three ends of A followed by C's attempts spare B; C gets `LockConflict` twice; B's rollback then
+    restores exactly the pre-image B recorded, `[4,1]` (A's value — when A rolled back in between, A's
+    undo had overwritten B's write: that is the known lock-expiry finding
+    `commit_permanent_vs_later_rollback_witness`, not a lock-table matter) -/
+example : let s := run s1 (takeover.take 8)
+    s.locks 0 0 = some ⟨1, 0⟩ ∧ (0, 0) ∈ s.txLocks 1 ∧ 2 < s.nextTx ∧ 0 ∈ matching ((s.tables 0).getD default) (.idEq 0) ∧
+    (s.locks 0 0).map (·.expired s.now s.lockTimeout) = some true ∧
+    (txUpdate s 2 0 (.idEq 0) [(0, 5)]).2 = .okN 1 ∧ holder (txUpdate s 2 0 (.idEq 0) [(0, 5)]).1 0 0 = some 2 ∧
+    (takeover.drop 8 = [.txUpdate 2 0 (.idEq 0) [(0, 5)]]) := by decide
+
+example : let sB := run s1 takeover
+    spares sB 2 0 0 ([.commit 1] ++ afterEnd.take 3) = true ∧ spares sB 2 0 0 ([.rollback 1] ++ afterEnd.take 3) = true ∧
+    spares sB 2 0 0 ([.tick 10000, .cleanupTxs] ++ afterEnd.take 3) = true ∧
+    spares sB 2 0 0 [.tick 30001] = false ∧ spares sB 2 0 0 [.commit 2] = false ∧
+    (runRes sB ([.commit 1] ++ afterEnd)).drop 2 = [.err .lockConflict, .err .lockConflict, .ok] ∧
+    (runRes sB ([.rollback 1] ++ afterEnd)).drop 2 = [.err .lockConflict, .err .lockConflict, .ok] ∧
+    (runRes sB ([.tick 10000, .cleanupTxs] ++ afterEnd)).drop 3 = [.err .lockConflict, .err .lockConflict, .ok] ∧
+    ((run sB ([.commit 1] ++ afterEnd)).tables 0).map (scanAnswer · .all) = some [(0, [4, 1])] ∧
+    ((run sB ([.rollback 1] ++ afterEnd)).tables 0).map (scanAnswer · .all) = some [(0, [4, 1])] ∧
+    ((run sB ([.tick 10000, .cleanupTxs] ++ afterEnd)).tables 0).map (scanAnswer · .all) = some [(0, [4, 1])] := by decide
+
+/-- WITNESS that the theorems above tell the code from its "simplified" variant: with a `release` that
+    drops every key recorded for the ending transaction WITHOUT looking at the current owner
+    (`releaseNoOwnerCheck`, `stepNoOwnerCheck`), on the 3-transaction script — A updates row 0, A's
+    lock times out, B updates the row, A ends (commit | rollback | timeout cleanup), C updates the row —
+    B's live lock is deleted by A's end (`row_lock_holder` = none although B is open and wrote the
+    row), C's update is accepted (`Ok(1)`, no `LockConflict`), and B's rollback then overwrites C's
+    value.  The current code (`run` / `runRes`, second half) keeps B the holder and refuses C. -/
+theorem release_no_owner_check_witness :
+    let sB := run s1 takeover
+    let cU : Op := .txUpdate 3 0 (.idEq 0) [(0, 6)]
+    -- the variant
+    (holder sB 0 0 = some 2 ∧ gate sB 2 = none ∧ (sB.locks 0 0).map (·.tx) ≠ some 1 ∧
+      holder (commitNoOwnerCheck sB 1).1 0 0 = none ∧ holder (rollbackNoOwnerCheck sB 1).1 0 0 = none ∧
+      holder (cleanupTxsNoOwnerCheck (tick sB 10000)).1 0 0 = none ∧
+      runResNoOwnerCheck sB [.commit 1, .begin, cU, .rollback 2] = [.ok, .okN 3, .okN 1, .ok] ∧
+      runResNoOwnerCheck sB [.rollback 1, .begin, cU, .rollback 2] = [.ok, .okN 3, .okN 1, .ok] ∧
+      runResNoOwnerCheck sB [.tick 10000, .cleanupTxs, .begin, cU, .rollback 2] = [.ok, .okN 1, .okN 3, .okN 1, .ok] ∧
+      ((runNoOwnerCheck sB [.commit 1, .begin, cU]).tables 0).map (scanAnswer · .all) = some [(0, [6, 1])] ∧
+      gate (runNoOwnerCheck sB [.commit 1, .begin, cU]) 3 = none ∧
+      ((runNoOwnerCheck sB [.commit 1, .begin, cU, .rollback 2]).tables 0).map (scanAnswer · .all) = some [(0, [4, 1])]) ∧
+    -- the code
+    (holder (commit sB 1).1 0 0 = some 2 ∧ holder (rollback sB 1).1 0 0 = some 2 ∧
+      holder (cleanupTxs (tick sB 10000)).1 0 0 = some 2 ∧
+      runRes sB [.commit 1, .begin, cU, .rollback 2] = [.ok, .okN 3, .err .lockConflict, .ok] ∧
+      runRes sB [.rollback 1, .begin, cU, .rollback 2] = [.ok, .okN 3, .err .lockConflict, .ok] ∧
+      runRes sB [.tick 10000, .cleanupTxs, .begin, cU, .rollback 2] = [.ok, .okN 1, .okN 3, .err .lockConflict, .ok]) := by
+  decide
 
 /-! ## rollback -/
 
